@@ -51,6 +51,7 @@ type Exec struct {
 	pureMode int             // >0 while evaluating a pure closure application: no obligations
 	inputs   map[string]string
 	notes    []string
+	plans    map[*ssa.Function]*lazyPlan
 }
 
 func (x *Exec) emit(st *State, kind, site, goal, src string) {
@@ -246,7 +247,12 @@ func (x *Exec) load(st *State, p Val, t types.Type) Val {
 		}
 		return Val{S: cur, Sort: x.w.sortOf(ct), T: ct, Fn: cell.Fn, Bind: cell.Bind, Place: cellPlace(cell, p)}
 	}
-	return Val{S: x.w.heapLoad(st, p.S, t), Sort: x.w.sortOf(t), T: t}
+	term := x.w.heapLoad(st, p.S, t)
+	// the heap is well typed: a loaded value satisfies the invariants of its type
+	for _, f := range x.w.typeFacts(term, t) {
+		st.assume(f)
+	}
+	return Val{S: term, Sort: x.w.sortOf(t), T: t}
 }
 
 func cellPlace(cell Val, p Val) *Place {
@@ -547,6 +553,7 @@ func (x *Exec) execBlock(run *funcRun, st *State, b *ssa.BasicBlock, idx int) {
 	fr := st.top
 	for i := idx; i < len(b.Instrs); i++ {
 		in := b.Instrs[i]
+		x.applyZeroReqs(st, in)
 		switch n := in.(type) {
 		case *ssa.If:
 			c := x.val(st, n.Cond)
@@ -724,6 +731,14 @@ func (x *Exec) proveClause(st *State, env *Env, c Clause, kind, site string) {
 	henv.side = &hside
 	hy := x.byHints(&henv, c.By)
 	parts := x.w.expandGoal(c.E, 0)
+	if c.Split != nil {
+		if q, ok := c.E.(*CQuant); ok && q.Forall {
+			parts = []CExpr{
+				&CQuant{Forall: true, Vars: q.Vars, Body: &CBinary{"==>", c.Split, q.Body}},
+				&CQuant{Forall: true, Vars: q.Vars, Body: &CBinary{"==>", &CUnary{"!", c.Split}, q.Body}},
+			}
+		}
+	}
 	n := 0
 	for _, part := range parts {
 		var side []string
@@ -897,11 +912,21 @@ func (x *Exec) checkVariant(st *State, fr *Frame, l *Loop, lc *LoopContract) {
 func (x *Exec) havocLoop(st *State, fr *Frame, l *Loop, lc *LoopContract) {
 	cells := map[*ssa.Alloc]bool{}
 	comps := map[string]bool{}
+	// objRoots[comp]: the objects (allocated by this function before the loop) that stores into comp are confined
+	// to; absent or unknown[comp] => the whole component is havocked
+	objRoots := map[string][]string{}
+	unknown := map[string]bool{}
+	entryCounter := app("+", "fresh0", fmt.Sprint(st.nobj))
+	if st.nobjBase != "" {
+		entryCounter = app("+", st.nobjBase, fmt.Sprint(st.nobj))
+	}
 	allHeap := false
 	allocates := false
 	var visitAddr func(a ssa.Value, t types.Type)
 	visitAddr = func(a ssa.Value, t types.Type) {
 		root := a
+		viaIndex := false
+		_ = viaIndex
 		for {
 			switch r := root.(type) {
 			case *ssa.FieldAddr:
@@ -909,6 +934,7 @@ func (x *Exec) havocLoop(st *State, fr *Frame, l *Loop, lc *LoopContract) {
 				continue
 			case *ssa.IndexAddr:
 				root = r.X
+				viaIndex = true
 				continue
 			}
 			break
@@ -917,18 +943,37 @@ func (x *Exec) havocLoop(st *State, fr *Frame, l *Loop, lc *LoopContract) {
 			cells[al] = true
 			return
 		}
-		x.compsOfType(t, comps)
+		cs := map[string]bool{}
+		x.compsOfType(t, cs)
+		for c := range cs {
+			comps[c] = true
+			if al, ok := root.(*ssa.Alloc); ok {
+				if l.Blocks[al.Block()] {
+					continue // object allocated inside the loop: above the entry allocation counter
+				}
+				if v, have := fr.vals[al]; have && v.S != "" {
+					objRoots[c] = append(objRoots[c], v.S)
+					continue
+				}
+			}
+			unknown[c] = true
+		}
 	}
 	for b := range l.Blocks {
 		for _, in := range b.Instrs {
 			switch n := in.(type) {
 			case *ssa.Store:
+				if _, lazy := x.plan(fr.fn).store[n]; lazy {
+					continue // initialising store into a fresh object: an assumption, not a heap write
+				}
 				visitAddr(n.Addr, n.Val.Type())
 			case *ssa.MapUpdate:
 				mt := n.Map.Type().Underlying().(*types.Map)
 				d, v := mapCompNames(x.w, mt)
 				comps[d] = true
 				comps[v] = true
+				unknown[d] = true
+				unknown[v] = true
 			case *ssa.Alloc:
 				if !x.isLocalMode(n) {
 					allocates = true
@@ -943,6 +988,9 @@ func (x *Exec) havocLoop(st *State, fr *Frame, l *Loop, lc *LoopContract) {
 				}
 				for c := range eff.comps {
 					comps[c] = true
+					if !eff.freshOnly {
+						unknown[c] = true
+					}
 				}
 				// places passed to inlined callees
 				for _, a := range n.Common().Args {
@@ -1001,7 +1049,21 @@ func (x *Exec) havocLoop(st *State, fr *Frame, l *Loop, lc *LoopContract) {
 	}
 	sort.Strings(cs)
 	for _, c := range cs {
+		old := st.heap[c]
+		if old == "" {
+			old = c + "_0"
+		}
 		x.havocComp(st, c)
+		if !unknown[c] && !allHeap && !strings.HasPrefix(c, "MD_") && !strings.HasPrefix(c, "MV_") {
+			// stores are confined to objects this function allocated before the loop (roots) or allocates inside
+			// it (at or above the allocation counter at loop entry): everything else is framed
+			ds := []string{app("<", app("oid", "p!z"), entryCounter)}
+			for _, o := range objRoots[c] {
+				ds = append(ds, snot(app("=", app("oid", "p!z"), app("oid", o))))
+			}
+			nv := st.heap[c]
+			st.assume(fmt.Sprintf("(forall ((p!z Addr)) (! (=> %s (= (select %s p!z) (select %s p!z))) :pattern ((select %s p!z))))", sand(ds...), nv, old, nv))
+		}
 	}
 	if allocates {
 		nb := x.g.fresh("nobj", "Int")
@@ -1050,8 +1112,9 @@ func (x *Exec) compsOfType(t types.Type, out map[string]bool) {
 }
 
 type effects struct {
-	all   bool
-	comps map[string]bool
+	all       bool
+	comps     map[string]bool
+	freshOnly bool // writes only into objects allocated by the call itself (append)
 }
 
 // ---------- instruction semantics ----------
@@ -1074,13 +1137,18 @@ func (x *Exec) step(st *State, in ssa.Instruction) {
 			fr.vals[n] = Val{Place: &Place{FrameID: fr.id, Alloc: n}, Sort: "Addr", T: n.Type()}
 		} else {
 			a := x.allocObj(st)
-			x.zeroInit(st, a, et)
+			if !x.plan(fr.fn).alloc[n] {
+				x.zeroInit(st, a, et)
+			}
 			fr.vals[n] = Val{S: a, Sort: "Addr", T: n.Type()}
 		}
 	case *ssa.Store:
 		p := x.val(st, n.Addr)
 		v := x.val(st, n.Val)
 		x.nilCheck(st, p, in)
+		if path, lazy := x.plan(fr.fn).store[n]; lazy && x.lazyStore(st, n, path, x.plan(fr.fn).storeAlloc[n], v) {
+			return
+		}
 		x.store(st, p, n.Val.Type(), v)
 		x.abbrevHeap(st)
 	case *ssa.UnOp:
@@ -1207,6 +1275,9 @@ func (x *Exec) step(st *State, in ssa.Instruction) {
 	}
 }
 
+// Allocation is modelled as an assumption: the cells of a fresh object were never read before (no pointer to the
+// object existed), so instead of writing zero values - which would create a new version of every heap component
+// and a frame axiom per allocation - the current heap is assumed to hold the zero values there already.
 func (x *Exec) zeroInit(st *State, a string, t types.Type) {
 	switch u := t.Underlying().(type) {
 	case *types.Struct:
@@ -1217,16 +1288,13 @@ func (x *Exec) zeroInit(st *State, a string, t types.Type) {
 	case *types.Array:
 		x.zeroRange(st, a, u.Elem())
 	default:
-		x.w.heapStore(st, a, t, x.w.zero(t))
+		_, cur := x.w.comp(st, x.w.sortOf(t))
+		st.assume(app("=", app("select", cur, a), x.w.zero(t)))
 	}
 }
 
 // zeroRange: all element cells idx(a, k) of a fresh object hold the zero value.
 func (x *Exec) zeroRange(st *State, a string, et types.Type) {
-	comps := map[string]bool{}
-	x.compsOfType(et, comps)
-	// quantified fact per element component: forall k. H[idx-rooted cell] = zero. Because the object is fresh
-	// the components are updated pointwise through a fresh array equal to the old one except at this object.
 	var leaf func(addr string, t types.Type)
 	k := "k!z"
 	leaf = func(addr string, t types.Type) {
@@ -1239,12 +1307,8 @@ func (x *Exec) zeroRange(st *State, a string, et types.Type) {
 		case *types.Array:
 			unsup("nested arrays")
 		default:
-			name, cur := x.w.comp(st, x.w.sortOf(t))
-			nv := x.g.fresh(name, "(Array Addr "+x.w.sortOf(t)+")")
-			st.heap[name] = nv
-			// frame: other objects unchanged; this object zero
-			st.assume(fmt.Sprintf("(forall ((p!z Addr)) (! (=> (not (= (oid p!z) (oid %s))) (= (select %s p!z) (select %s p!z))) :pattern ((select %s p!z))))", a, nv, cur, nv))
-			st.assume(fmt.Sprintf("(forall ((%s Int)) (! (= (select %s %s) %s) :pattern ((select %s %s))))", k, nv, addr, x.w.zero(t), nv, addr))
+			_, cur := x.w.comp(st, x.w.sortOf(t))
+			st.assume(fmt.Sprintf("(forall ((%s Int)) (! (= (select %s %s) %s) :pattern ((select %s %s))))", k, cur, addr, x.w.zero(t), cur, addr))
 		}
 	}
 	leaf(app("idx", a, k), et)
@@ -1476,11 +1540,8 @@ func (x *Exec) convert(st *State, n *ssa.Convert) {
 	case fok && fb.Info()&types.IsString != 0:
 		if sl, ok := to.(*types.Slice); ok && isByte(sl.Elem()) {
 			a := x.allocObj(st)
-			name, cur := x.w.comp(st, "Int")
-			nv := x.g.fresh(name, "(Array Addr Int)")
-			st.heap[name] = nv
-			st.assume(fmt.Sprintf("(forall ((p!z Addr)) (! (=> (not (= (oid p!z) (oid %s))) (= (select %s p!z) (select %s p!z))) :pattern ((select %s p!z))))", a, nv, cur, nv))
-			st.assume(fmt.Sprintf("(forall ((k!c Int)) (! (=> (and (<= 0 k!c) (< k!c (len %s))) (= (select %s (idx %s k!c)) (at %s k!c))) :pattern ((select %s (idx %s k!c)))))", v.S, nv, a, v.S, nv, a))
+			_, cur := x.w.comp(st, "Int")
+			st.assume(fmt.Sprintf("(forall ((k!c Int)) (! (=> (and (<= 0 k!c) (< k!c (len %s))) (= (select %s (idx %s k!c)) (at %s k!c))) :pattern ((select %s (idx %s k!c)))))", v.S, cur, a, v.S, cur, a))
 			fr.vals[n] = Val{S: app("mk_slice", a, "0", app("len", v.S), app("len", v.S)), Sort: "Slice", T: n.Type()}
 			return
 		}
@@ -1551,17 +1612,7 @@ func mapCompNames(w *World, mt *types.Map) (dom, val string) {
 
 func (x *Exec) mapComps(st *State, mt *types.Map) (dom, val string) {
 	dn, vn := mapCompNames(x.w, mt)
-	d, ok := st.heap[dn]
-	if !ok {
-		d = dn + "_0"
-		st.heap[dn] = d
-	}
-	v, ok := st.heap[vn]
-	if !ok {
-		v = vn + "_0"
-		st.heap[vn] = v
-	}
-	return d, v
+	return x.w.compByName(st, dn), x.w.compByName(st, vn)
 }
 
 func (x *Exec) mapUpdate(st *State, n *ssa.MapUpdate) {
